@@ -208,7 +208,7 @@ func (s *setSubj[T]) ModelApply(op Op) {
 		}
 	case "Clear", "RemoveOwn":
 		s.m = nil
-	case "AddOwn":
+	case "AddOwn", "Churn":
 	case "RemoveOwnTail":
 		if len(s.m) > 0 {
 			s.m = []T{s.modelOrdered()[op.A[0]%len(s.m)]}
@@ -268,6 +268,28 @@ func (s *setSubj[T]) Step(op Op, o *Oracle) {
 		s.afterCall(vs)
 	case "Clear":
 		s.s.Clear()
+	case "Churn": // op.A[0] times: three strangers are added in one call and removed in one call
+		var strangers []T
+		for _, x := range append(slices.Clone(s.d.Probes), s.d.Tab...) {
+			if s.find(x) < 0 && !slices.ContainsFunc(strangers, func(y T) bool { return s.class(y) == s.class(x) }) && s.class(x) == s.class(x) {
+				strangers = append(strangers, x)
+			}
+			if len(strangers) == 3 {
+				break
+			}
+		}
+		for i := 0; i < op.A[0] && len(strangers) > 0 && s.d.Elem != "float"; i++ {
+			s.s.Add(strangers...)
+			s.s.Remove(strangers...)
+			if got := s.s.Size(); got != len(s.m) && o.On("C04") {
+				// (asked after every pair: the pairs that follow would take the strangers out again)
+				o.Fail("C04", "size", "pair %d of a long run of Add(%s) / Remove(%s): Size()=%d, members %d", i, joinS(strangers, s.d.Str), joinS(strangers, s.d.Str), got, len(s.m))
+				break
+			}
+			if i%512 == 0 {
+				opSteps = 0
+			}
+		}
 	case "AddOwn", "RemoveOwn", "RemoveOwnTail":
 		// the slice Values() returned is handed straight back (the caller's data, like any other argument)
 		vs := ownArgs(s.s.Values())
